@@ -2699,11 +2699,7 @@ class Partitions(Expr):
         return self.frame._meta
 
     def _divisions(self):
-        divisions = []
-        for part in self.partitions:
-            divisions.append(self.frame.divisions[part])
-        divisions.append(self.frame.divisions[part + 1])
-        return tuple(divisions)
+        return _divisions_of_selection(self.frame.divisions, self.partitions)
 
     def _task(self, index: int):
         return (self.frame._name, self.partitions[index])
@@ -2734,6 +2730,20 @@ class Partitions(Expr):
 
     def _node_label_args(self):
         return [self.frame, self.partitions]
+
+
+def _divisions_of_selection(full_divisions, partitions):
+    """Divisions of the collection made of the selected ``partitions``"""
+    partitions = list(partitions)
+    if any(b <= a for a, b in zip(partitions, partitions[1:])):
+        # The lower bounds of a reordered or repeated selection are not sorted
+        # and do not bound the partitions: the divisions are unknown
+        return (None,) * (len(partitions) + 1)
+    new_divisions = []
+    for part in partitions:
+        new_divisions.append(full_divisions[part])
+    new_divisions.append(full_divisions[part + 1])
+    return tuple(new_divisions)
 
 
 class PartitionsFiltered(Expr):
@@ -2771,11 +2781,7 @@ class PartitionsFiltered(Expr):
             return full_divisions
 
         # Specific case: Specific partitions were selected
-        new_divisions = []
-        for part in self._partitions:
-            new_divisions.append(full_divisions[part])
-        new_divisions.append(full_divisions[part + 1])
-        return tuple(new_divisions)
+        return _divisions_of_selection(full_divisions, self._partitions)
 
     @property
     def npartitions(self):
